@@ -248,6 +248,8 @@ def run(ctx):
             if n['k'] == 'Struct' and n.get('def') == C.driver_struct:
                 ctor_bodies.add(path)
     touched = set()
+    import controls
+    controls.who_may_touch(ctx)
     for path, n, c in hirq.field_accesses(f, lambda n: hirq.strip_refs(n.get('ty', '')) in (anchors.T_RESULTMAP, anchors.T_SEARCHMAP)):
         touched.add(path)
         ctx.add('R8.map-owner', path, loc(n), path == C.loop_path or path in ctor_bodies,
